@@ -368,4 +368,78 @@ pub mod props {
         }
     }
 //@@ end
+
+//@@ lemma
+//@@ unit lemma.C15.shell_word_is_data tags=C15
+    pub proof fn lemma_sh_run_prefix(st: ShSt, a: Seq<char>, b: Seq<char>, n: int)
+        requires 0 <= n <= a.len(),
+        ensures sh_run(st, a + b, n) == sh_run(st, a, n),
+        decreases n,
+    {
+        if n > 0 { lemma_sh_run_prefix(st, a, b, n - 1); assert((a + b)[n - 1] == a[n - 1]); }
+    }
+    pub proof fn lemma_sh_run_append(st: ShSt, a: Seq<char>, b: Seq<char>, k: int)
+        requires 0 <= k <= b.len(),
+        ensures sh_run(st, a + b, a.len() + k) == sh_run(sh_run(st, a, a.len() as int), b, k),
+        decreases k,
+    {
+        if k == 0 {
+            lemma_sh_run_prefix(st, a, b, a.len() as int);
+        } else {
+            lemma_sh_run_append(st, a, b, k - 1);
+            assert((a + b)[a.len() + k - 1] == b[k - 1]);
+        }
+    }
+    pub proof fn lemma_quoted_reads_back(s: Seq<char>, n: int)
+        requires 0 <= n <= s.len(),
+        ensures ({
+            let w = q_acc(seq!['\''], s, n);
+            sh_run(sh_start(), w, w.len() as int) == ShSt { in_q: true, esc: false, ok: true, out: s.take(n) }
+        }),
+        decreases n,
+    {
+        if n == 0 {
+            let w = seq!['\''];
+            assert(sh_run(sh_start(), w, 0) == sh_start());
+            assert(s.take(0) =~= Seq::<char>::empty());
+        } else {
+            lemma_quoted_reads_back(s, n - 1);
+            let acc = q_acc(seq!['\''], s, n - 1);
+            let c = s[n - 1];
+            let st = ShSt { in_q: true, esc: false, ok: true, out: s.take(n - 1) };
+            assert(s.take(n) =~= s.take(n - 1).push(c));
+            if c == '\'' {
+                let l = q_lit();
+                lemma_sh_run_append(sh_start(), acc, l, 4);
+                assert(sh_run(st, l, 0) == st);
+                assert(sh_run(st, l, 1) == ShSt { in_q: false, ..st });
+                assert(sh_run(st, l, 2) == ShSt { in_q: false, esc: true, ..st });
+                assert(sh_run(st, l, 3) == ShSt { in_q: false, esc: false, out: st.out.push('\''), ..st });
+                assert(sh_run(st, l, 4) == ShSt { in_q: true, esc: false, out: st.out.push('\''), ..st });
+            } else {
+                let l = seq![c];
+                assert(acc.push(c) =~= acc + l);
+                lemma_sh_run_append(sh_start(), acc, l, 1);
+                assert(sh_run(st, l, 0) == st);
+            }
+        }
+    }
+    /// C15 "every string ... is quoted so that the shell treats it as data": a POSIX shell reads what `Shell` writes as ONE complete
+    /// word whose value is exactly the original text - for every string, nothing is executed, split, expanded or left unterminated
+    pub proof fn lemma_c15_shell_word_is_data(s: Seq<char>)
+        ensures ({
+            let w = quoted(Seq::<char>::empty(), s);
+            sh_run(sh_start(), w, w.len() as int) == ShSt { in_q: false, esc: false, ok: true, out: s } // #reads_back_as_one_word_with_the_same_text
+        }),
+    {
+        lemma_quoted_reads_back(s, s.len() as int);
+        let body = q_acc(seq!['\''], s, s.len() as int);
+        assert(Seq::<char>::empty().push('\'') =~= seq!['\'']);
+        assert(body.push('\'') =~= body + seq!['\'']);
+        lemma_sh_run_append(sh_start(), body, seq!['\''], 1);
+        let st = ShSt { in_q: true, esc: false, ok: true, out: s.take(s.len() as int) };
+        assert(sh_run(st, seq!['\''], 0) == st);
+        assert(s.take(s.len() as int) =~= s);
+    }
+//@@ end
 }
